@@ -301,6 +301,17 @@ def tensor_index(it, base: VTensor, idx, node):
         elif isinstance(x, VSlice):
             if x.lo is None and x.hi is None and x.step is None:
                 ax += 1
+            elif isinstance(x.lo, VOpaque) and x.lo.tag.startswith("userint:") and isinstance(x.hi, VOpaque) and x.step is None \
+                    and x.hi.tag == "userint+:" + x.lo.tag.split(":", 1)[1] + ":1":
+                # X[i:i+1] for a caller's integer i: one entry, kept as an axis of size 1 - except for i == -1, where the slice -1:0 is empty
+                nm = x.lo.tag.split(":", 1)[1]
+                if it.truth(VBool(None, f"{nm} == -1")):
+                    cur = net.select_axis(sp, cur, ax, f"{nm}:{nm}+1 (empty)", ZERO)
+                else:
+                    cur = net.insert_axis(net.index_axis_int(sp, cur, ax, nm), ax)
+                    if cnts is not None:
+                        cnts[ax] = None
+                ax += 1
             elif x.name:
                 cur = net.select_axis(sp, cur, ax, x.name, P.atom(f"|{x.name}|"))
                 ax += 1
@@ -443,9 +454,41 @@ def call(it, e: ast.Call, fr):
     return function(it, f.dotted, args, kwargs, fr, e)
 
 
+def _as_intarr(it, v):
+    if isinstance(v, VIntArr):
+        return v
+    if isinstance(v, VIndexSeq):
+        out = []
+        for n, a, b in v.parts:
+            c = it.facts.norm(n).const_value()
+            if c is None:
+                return None
+            out += [a * k + b for k in range(int(c))]
+        return VIntArr((len(out),), out)
+    return None
+
+
 def method(it, base, name, args, kwargs, fr, node):
     if isinstance(base, VOpaque) and base.tag == "logger":
         return VNone()       # logging calls carry no value
+    if isinstance(base, (VIntArr, VIndexSeq)) and name in ("reshape", "transpose", "flatten", "ravel", "tolist"):
+        arr = _as_intarr(it, base)
+        if arr is not None:
+            if name == "reshape":
+                shp = args[0] if len(args) == 1 and isinstance(args[0], (VList, VTuple)) else VList(list(args))
+                dims = [it.facts.norm(x.p).const_value() if isinstance(x, VInt) else None for x in shp.items]
+                if None in dims:
+                    raise Unmodelled("reshape of an index array to symbolic sizes")
+                try:
+                    return arr.reshape([int(x) for x in dims])
+                except ValueError:
+                    raise Raised("ValueError", "cannot reshape array")
+            if name == "transpose" and not args:
+                return arr.transpose()
+            if name in ("flatten", "ravel"):
+                return arr.flatten()
+            if name == "tolist" and len(arr.shape) == 1:
+                return VList([VInt(P.const(x)) for x in arr.data])
     if isinstance(base, VList):
         if name == "append":
             if it.class_ctx and id(base) not in it.class_ctx[-1].local_lists:
@@ -806,6 +849,12 @@ def function(it, dotted, args, kwargs, fr, node):
         return VInt(out)
     if dotted == "math.sqrt" and len(args) == 1:
         return _sqrt_scalar(args[0])
+    if dotted == "math.log" and len(args) == 2 and all(isinstance(a, VInt) and it.facts.norm(a.p).const_value() is not None for a in args):
+        # constant folding with the library function the program itself calls (sizes fixed by the scenario)
+        import math
+        a, b = (int(it.facts.norm(x.p).const_value()) for x in args)
+        if a >= 1 and b >= 2:
+            return VFloat(math.log(a, b))
     raise Unmodelled(f"call of {dotted}")
 
 
@@ -886,6 +935,9 @@ def builtin(it, name, args, kwargs, fr, node):
         v = args[0]
         if isinstance(v, VOpaque):
             return v      # list(<result of an opaque routine>): still opaque
+        if isinstance(v, VIntArr) and len(v.shape) == 1:
+            items = [VInt(P.const(x)) for x in v.data]
+            return VList(items) if name == "list" else VTuple(tuple(items))
         if isinstance(v, VIndexSeq):
             out = []
             for n, a, b in v.parts:
@@ -939,6 +991,8 @@ def builtin(it, name, args, kwargs, fr, node):
             if c:
                 best = x
         return best
+    if name == "int" and len(args) == 1 and isinstance(args[0], VFloat):
+        return VInt(P.const(int(args[0].x)))
     if name in ("int", "float", "abs"):
         return args[0]
     if name == "str":
